@@ -322,7 +322,7 @@ package seat_manager
 //@   config M 2..10 : maxSeats = M
 //@   requires 2 <= maxSeats && maxSeats <= 10
 //@   modifies nothing
-//@   ensures inv: SmWF(r) && fresh(r) && !r.IsInit && r.MaxSeat == maxSeats && r.Rule == rule && !held(r.mu)
+//@   ensures inv: SmWF(r) && fresh(r) && !r.IsInit && r.MaxSeat == maxSeats && r.Rule == rule && !held(r.mu) && fresh(r.SeatData) && ref(r) != 0 && typeis(r, "*seat_manager.seatManager")
 //@   ensures empty: forall(s, 0, maxSeats, !occ(r, s))
 
 //@ func (*seatManager).getOccupiedPlayerSeatIDs
